@@ -19,13 +19,13 @@ def consts(sk, **kw):
     return d
 
 
-def mc(cs, what, expect=None, timeout=900):
+def mc(cs, what, expect=None, timeout=900, simulate=None, depth=None, seed=None):
     hist = cs["WithHist"] == "TRUE"
     invs = INV + (["Emit"] if hist else [])
     if expect:
         invs = [expect]
     r = C.run_tlc_wrapped("Assembler", cs, dict(spec="Spec", invariants=invs, view=None if hist else "View"),
-                          workers=1 if hist else C.NCPU, timeout=timeout)
+                          workers=1 if hist else C.NCPU, timeout=timeout, simulate=simulate, depth=depth, seed=seed)
     if expect:
         if expect not in r.violated:
             raise C.MachineryError(f"negative control {what}: TLC no longer refutes {expect} (violated={r.violated})\n{r.tail[-600:]}")
